@@ -1,0 +1,11 @@
+//go:build verif
+
+package sqroot
+
+// VerifNewNumber builds a Number backed by an arbitrary digit source.
+// digits returns the next digit 0-9 on each call, or -1 when there are no
+// more digits. It mirrors v3's NewNumber minus the first digit probe and
+// exists only for verification builds (build tag verif).
+func VerifNewNumber(digits func() int, exp int) *Number {
+	return &Number{exponent: exp, spec: newMemoizeSpec(digits)}
+}
